@@ -1,0 +1,73 @@
+//go:build verif && (verif_all || verif_c20)
+// +build verif
+// +build verif_all verif_c20
+
+package gocql
+
+// Verification hooks (build tag `verif`) for C20 (TLS verification table, credential disclosure):
+// thin exported wrappers over unexported functions. Add-only.
+
+import (
+	"context"
+	"crypto/tls"
+	"net"
+	"path/filepath"
+	"runtime"
+	"time"
+)
+
+// VerifSetupTLSConfig exposes setupTLSConfig.
+func VerifSetupTLSConfig(o *SslOptions) (*tls.Config, error) { return setupTLSConfig(o) }
+
+// VerifTLSConfigForAddr exposes tlsConfigForAddr.
+func VerifTLSConfigForAddr(c *tls.Config, addr string) *tls.Config { return tlsConfigForAddr(c, addr) }
+
+// VerifApprove exposes approve.
+func VerifApprove(authenticator string, approved []string) bool {
+	return approve(authenticator, approved)
+}
+
+// VerifDefaultApprovedAuthenticators returns a copy of the built-in allow-list.
+func VerifDefaultApprovedAuthenticators() []string {
+	return append([]string(nil), defaultApprovedAuthenticators...)
+}
+
+// VerifHostnameAndPort returns HostInfo.HostnameAndPort() of a host with the given hostname
+// (may be empty), connect address and port: the address string handed to WrapTLS by the default dialer.
+func VerifHostnameAndPort(hostname string, ip net.IP, port int) string {
+	h := &HostInfo{hostname: hostname, connectAddress: ip, port: port}
+	return h.HostnameAndPort()
+}
+
+// VerifSourceDir returns the directory this package was compiled from.
+func VerifSourceDir() string {
+	_, file, _, _ := runtime.Caller(0)
+	return filepath.Dir(file)
+}
+
+type verifFixedDialer struct{ conn net.Conn }
+
+func (d verifFixedDialer) DialHost(ctx context.Context, host *HostInfo) (*DialedHost, error) {
+	return &DialedHost{Conn: d.conn}, nil
+}
+
+// VerifStartup runs the driver's connection start-up (OPTIONS, STARTUP, authentication) over conn
+// exactly as Session.connect does, with the given authenticator (nil = none configured), and closes
+// the connection again. The error is the one Session.dial would return.
+func VerifStartup(conn net.Conn, auth Authenticator, proto int, timeout time.Duration) error {
+	s := &Session{}
+	cfg := &ConnConfig{
+		ProtoVersion:   proto,
+		CQLVersion:     "3.0.0",
+		Timeout:        timeout,
+		ConnectTimeout: timeout,
+		Authenticator:  auth,
+		HostDialer:     verifFixedDialer{conn},
+	}
+	host := &HostInfo{connectAddress: net.IPv4(127, 0, 0, 1), port: 9042}
+	c, err := s.dialWithoutObserver(context.Background(), host, cfg, connErrorHandlerFn(func(*Conn, error, bool) {}))
+	if c != nil {
+		c.Close()
+	}
+	return err
+}
